@@ -233,6 +233,10 @@ class Catalog:
             parts = []
             for k, r in enumerate(result):
                 if isinstance(r, dict):
+                    # the information dictionary: its arrays (echoed parameters, traces) are judged for sharing with
+                    # live objects, but not kept on the heap
+                    for arr in _arrays_in(r):
+                        parts.append((JudgeOnly(arr), ()))
                     continue
                 parts.append((r, allowed if k == 0 else tuple(step.get("guess_operands", ())) + allowed))
             return parts
@@ -240,6 +244,25 @@ class Catalog:
 
     def wanted(self, heap, obj) -> bool:
         return True
+
+
+class JudgeOnly:
+    """A part of a result that is judged (independent of every live object) but not kept for later steps."""
+
+    def __init__(self, arr):
+        self.arr = arr
+
+
+def _arrays_in(x, depth=0):
+    if isinstance(x, np.ndarray):
+        if x.dtype.kind in "biuf" and x.size:
+            yield x
+    elif isinstance(x, dict) and depth < 4:
+        for v in x.values():
+            yield from _arrays_in(v, depth + 1)
+    elif isinstance(x, (list, tuple)) and depth < 4:
+        for v in x:
+            yield from _arrays_in(v, depth + 1)
 
 
 class GenCtx:
